@@ -10,6 +10,10 @@ func propC12(c *Ctx, r *Report) {
 	c.runResetScopes(r, spirvResetScopes)
 	r.Clauses = append(r.Clauses,
 		"E4 clone freshness: every container (slice / pointer / map, at every access path from the module root) that the code working on a module clone writes through - ir.ProcessOverrides on ir.CloneModuleForOverrides (glsl.Compile with PipelineConstants), the MSL pipeline-constant pass on its own copy, the DXIL inline+sroa+mem2reg+dce pipeline on its clone - is re-allocated by the clone function, so no backend writes into the module it was given")
+	r.Clauses = append(r.Clauses,
+		"E6 map order: every `range` over a Go map in library code has an order-insensitive body (set/map inserts, flags, counters, min/max, appends that are sorted before use, existence checks) or a written argument why the order cannot reach the output")
+	c.runMapOrder(r, "maporder", "mapranges", nil, mapOrderExceptions)
+	r.floor("mapranges", 60)
 	for _, sp := range cloneSpecs {
 		c.runClone(r, "clone.fresh", sp)
 		r.floor("clone."+sp.Name, 3)
